@@ -90,6 +90,10 @@ partial def toN (x : SX) : Option N :=
     | "index", some [e, i] => some (.index e i)
     | "slice", some [e, lo, hi] => some (.slice e lo hi)
     | "list", some items => some (.list (N.ofList items))
+    | "set", some items => some (.set (N.ofList items))
+    | "map", some entries => some (.map (N.ofList entries))
+    | "pipe", some stages => some (.pipe (N.ofList stages))
+    | "defer", some [c] => some (.defer_ c)
     | "tmpl", some parts => some (.tmpl (N.ofList parts))
     | "params", some ps => some (N.ofList ps)
     | "param", some [] => some (.param s .none_)
@@ -149,6 +153,9 @@ partial def showVal (st : St) (v : Val) : String :=
   | .list r => "(list" ++ String.join ((st.heap.getD r []).map (fun x => " " ++ showVal st x)) ++ ")"
   | .fn _ => "(fn)"
   | .builtin n => "(builtin " ++ n ++ ")"
+  | .err c _ => "(error " ++ c ++ ")"
+  | .set r => "(set" ++ String.join ((st.heap.getD r []).map (fun x => " " ++ showVal st x)) ++ ")"
+  | .map r => "(map" ++ String.join ((st.heap.getD r []).map (fun x => " " ++ showVal st x)) ++ ")"
 
 def showOutcome (o : Outcome) : String :=
   let out := toHexField (strBytes (String.join (o.st.out.reverse.map (· ++ "\n"))))
@@ -157,6 +164,7 @@ def showOutcome (o : Outcome) : String :=
   | .unit => "ok\t(nil)\t" ++ out
   | .ret v => "ok\t" ++ showVal o.st v ++ "\t" ++ out
   | .err c => "err\t" ++ c ++ "\t" ++ out
+  | .uerr _ => "err\terror\t" ++ out
   | .brk | .cont => "err\tcompile\t" ++ out
   | .oof => "oof\t-\t" ++ out
   | .unsupported w => "unsupported\t" ++ w ++ "\t" ++ out
